@@ -4,13 +4,13 @@
 use std::{marker::PhantomData, sync::Arc};
 
 use winter_air::{
-    Air, AirContext, Assertion, AuxRandElements, ConstraintCompositionCoefficients, EvaluationFrame, FieldExtension,
-    GkrVerifier, LagrangeKernelRandElements, ProofOptions, TraceInfo, TransitionConstraintDegree,
+    proof::Queries, Air, AirContext, Assertion, AuxRandElements, ConstraintCompositionCoefficients, EvaluationFrame, FieldExtension,
+    GkrVerifier, LagrangeKernelEvaluationFrame, LagrangeKernelRandElements, ProofOptions, TraceInfo, TransitionConstraintDegree,
 };
 use winter_crypto::{ElementHasher, RandomCoin};
 use winter_math::{ExtensionOf, FieldElement, ToElements};
 use winter_prover::{
-    matrix::ColMatrix, DefaultConstraintEvaluator, DefaultTraceLde, Prover, ProverGkrProof, StarkDomain, Trace,
+    matrix::ColMatrix, DefaultConstraintEvaluator, DefaultTraceLde, Prover, ProverGkrProof, StarkDomain, Trace, TraceLde,
     TracePolyTable,
 };
 
@@ -654,7 +654,7 @@ where
     type Trace = GTrace<B>;
     type HashFn = H;
     type RandomCoin = R;
-    type TraceLde<E: FieldElement<BaseField = B>> = DefaultTraceLde<E, H>;
+    type TraceLde<E: FieldElement<BaseField = B>> = SwapLde<E, H>;
     type ConstraintEvaluator<'a, E: FieldElement<BaseField = B>> = DefaultConstraintEvaluator<'a, GAir<B>, E>;
 
     fn get_pub_inputs(&self, _t: &GTrace<B>) -> GPub<B> {
@@ -664,7 +664,12 @@ where
         &self.options
     }
     fn new_trace_lde<E: FieldElement<BaseField = B>>(&self, ti: &TraceInfo, m: &ColMatrix<B>, d: &StarkDomain<B>) -> (Self::TraceLde<E>, TracePolyTable<E>) {
-        DefaultTraceLde::new(ti, m, d)
+        let (honest, polys) = DefaultTraceLde::new(ti, m, d);
+        let committed = FAKE_MAIN.with(|x| x.borrow().clone()).map(|cols| {
+            let fake = ColMatrix::new(cols.iter().map(|c| c.iter().map(|v| B::from_res(*v)).collect()).collect());
+            DefaultTraceLde::new(ti, &fake, d).0
+        });
+        (SwapLde { honest, committed }, polys)
     }
     fn new_evaluator<'a, E: FieldElement<BaseField = B>>(&self, air: &'a GAir<B>, aux: Option<AuxRandElements<E>>, cc: ConstraintCompositionCoefficients<E>) -> Self::ConstraintEvaluator<'a, E> {
         DefaultConstraintEvaluator::new(air, aux, cc)
@@ -676,6 +681,57 @@ where
     }
     fn build_aux_trace<E: FieldElement<BaseField = B>>(&self, main: &GTrace<B>, rands: &AuxRandElements<E>) -> ColMatrix<E> {
         build_aux::<B, E>(&self.pubs.shape, main.main_segment(), rands.rand_elements(), rands.lagrange().map(|l| l.as_ref().to_vec()))
+    }
+}
+
+thread_local! {
+    /// main trace (residues, column major) whose low-degree extension a cheating prover commits to
+    /// and opens INSTEAD of the one of the trace it proves (None = honest)
+    static FAKE_MAIN: std::cell::RefCell<Option<Vec<Vec<u128>>>> = const { std::cell::RefCell::new(None) };
+}
+pub fn set_committed_main_trace(cols: Option<Vec<Vec<u128>>>) {
+    FAKE_MAIN.with(|x| *x.borrow_mut() = cols);
+}
+
+/// trace LDE of a prover that may commit to (and open) the extension of another main trace than
+/// the one whose polynomials, constraint evaluations and out-of-domain frame it uses
+pub struct SwapLde<E: FieldElement, H: ElementHasher<BaseField = E::BaseField>> {
+    honest: DefaultTraceLde<E, H>,
+    committed: Option<DefaultTraceLde<E, H>>,
+}
+
+impl<E: FieldElement, H: ElementHasher<BaseField = E::BaseField>> TraceLde<E> for SwapLde<E, H> {
+    type HashFn = H;
+    fn get_main_trace_commitment(&self) -> H::Digest {
+        self.committed.as_ref().unwrap_or(&self.honest).get_main_trace_commitment()
+    }
+    fn set_aux_trace(&mut self, aux_trace: &ColMatrix<E>, domain: &StarkDomain<E::BaseField>) -> (ColMatrix<E>, H::Digest) {
+        let r = self.honest.set_aux_trace(aux_trace, domain);
+        if let Some(c) = &mut self.committed {
+            let _ = c.set_aux_trace(aux_trace, domain);
+        }
+        r
+    }
+    fn read_main_trace_frame_into(&self, lde_step: usize, frame: &mut EvaluationFrame<E::BaseField>) {
+        self.honest.read_main_trace_frame_into(lde_step, frame)
+    }
+    fn read_aux_trace_frame_into(&self, lde_step: usize, frame: &mut EvaluationFrame<E>) {
+        self.honest.read_aux_trace_frame_into(lde_step, frame)
+    }
+    fn read_lagrange_kernel_frame_into(&self, lde_step: usize, col_idx: usize, frame: &mut LagrangeKernelEvaluationFrame<E>) {
+        self.honest.read_lagrange_kernel_frame_into(lde_step, col_idx, frame)
+    }
+    fn query(&self, positions: &[usize]) -> Vec<Queries> {
+        self.committed.as_ref().unwrap_or(&self.honest).query(positions)
+    }
+    fn trace_len(&self) -> usize {
+        self.honest.trace_len()
+    }
+    fn blowup(&self) -> usize {
+        self.honest.blowup()
+    }
+    fn trace_info(&self) -> &TraceInfo {
+        self.honest.trace_info()
     }
 }
 
